@@ -225,3 +225,65 @@ def fault_text(inputs):
         return {'violates': True, 'witness_key': 'fault-text-not-serializable', 'input': {'char': ord(bad[0])},
                 'detail': f'a fault whose reason quotes U+{ord(bad[0]):04X} cannot be serialized: {bad[1]}'}
     return {'violates': False, 'detail': f'{n} code points'}
+
+
+def schema_invalid_bodies(inputs):
+    """Schema-invalid requests whose offending element name / attribute value contains non-latin-1 characters or a line
+    feed, posted to a real provider: each gets exactly one well-formed status line + header section, status 4xx/5xx and
+    a SOAP fault (error texts that quote message content must not end up in the status line)."""
+    import re
+    import socket
+    from urllib.parse import urlsplit
+    from native.loopback import Loop
+    env = ('<s12:Envelope xmlns:s12="http://www.w3.org/2003/05/soap-envelope" xmlns:wsa="http://www.w3.org/2005/08/addressing" '
+           'xmlns:msg="http://standards.ieee.org/downloads/11073/11073-10207-2017/message"><s12:Header>'
+           '<wsa:Action>http://standards.ieee.org/downloads/11073/11073-20701-2018/GetService/GetMdState</wsa:Action>'
+           '<wsa:MessageID>urn:uuid:0f6f0d2a-0000-4000-8000-000000000002</wsa:MessageID></s12:Header>'
+           '<s12:Body>%s</s12:Body></s12:Envelope>')
+    bodies = {'ascii-control': '<msg:GetMdState><msg:Bogus>x</msg:Bogus></msg:GetMdState>',
+              'non-latin-1-value': '<msg:GetMdState Bogus="€東京"/>',
+              'non-latin-1-element-name': '<msg:GetMdState><msg:東京/></msg:GetMdState>',
+              'non-latin-1-text': '<msg:GetMdState><msg:HandleRef>€</msg:HandleRef><msg:Bogus>€</msg:Bogus></msg:GetMdState>',
+              'line-feed-in-value': '<msg:GetMdState Bogus="a&#10;X-Injected: yes"/>',
+              'line-feed-in-text': '<msg:GetMdState><msg:Bogus>a\nX-Injected: yes\n\nbody</msg:Bogus></msg:GetMdState>'}
+    only = (inputs or {}).get('body')
+    with Loop(with_consumer_mdib=False, n_consumers=0) as lp:
+        url = urlsplit(lp.provider.get_xaddrs()[0])
+        httpd = lp.provider._http_server.httpd
+        escaped = []
+        httpd.handle_error = lambda request, client_address: escaped.append(repr(__import__('sys').exc_info()[1]))
+        for name, b in bodies.items():
+            if only and name != only:
+                continue
+            body = (env % b).encode('utf-8')
+            req = (f'POST {url.path}/Get HTTP/1.1\r\nHost: x\r\nContent-Type: application/soap+xml; charset=utf-8\r\n'
+                   f'Content-Length: {len(body)}\r\nConnection: close\r\n\r\n').encode('latin-1') + body
+            n0 = len(escaped)
+            s = socket.create_connection((url.hostname, url.port), timeout=5)
+            data = b''
+            try:
+                s.sendall(req)
+                while True:
+                    try:
+                        chunk = s.recv(65536)
+                    except socket.timeout:
+                        break
+                    if not chunk:
+                        break
+                    data += chunk
+            finally:
+                s.close()
+            head, _, payload = data.partition(b'\r\n\r\n')
+            lines = head.split(b'\r\n')
+            if len(escaped) > n0 or not data.startswith(b'HTTP/1.'):
+                return {'violates': True, 'witness_key': f'no-status:schema-invalid:{name}', 'input': {'body': name},
+                        'detail': f'schema-invalid request ({name}): {"exception " + escaped[-1] + " escaped into the server loop; " if len(escaped) > n0 else ""}answer={data[:60]!r}'}
+            odd = [ln for ln in lines[1:] if not re.match(rb'^[A-Za-z0-9-]+:', ln)]
+            if odd or b'\n' in head.replace(b'\r\n', b'') or any(ln.lower().startswith(b'x-injected') for ln in lines[1:]):
+                return {'violates': True, 'witness_key': f'malformed-header-section:schema-invalid:{name}', 'input': {'body': name},
+                        'detail': f'schema-invalid request ({name}): header section is not a status line plus header lines: {head[:200]!r}'}
+            code = lines[0].split(b' ')[1] if len(lines[0].split(b' ')) > 1 else b'?'
+            if code == b'200' or b'Fault' not in payload:
+                return {'violates': True, 'witness_key': f'no-fault:schema-invalid:{name}', 'input': {'body': name},
+                        'detail': f'schema-invalid request ({name}): status {code.decode()} and {"no " if b"Fault" not in payload else ""}SOAP fault'}
+    return {'violates': False, 'detail': f'{len(bodies)} schema-invalid bodies answered with a fault'}
